@@ -22,10 +22,11 @@ EXPLANATION = (
     '(Kahn order, least fixed point of the skip rule, written independently) is a formula over the still-symbolic '
     'booleans; one more query per shard proves that the explored path conditions cover the whole bounded input '
     'space. Bounded: quick N=3 jobs (all 3^6 x 2^3 dependency shapes, every mention flavour per consumer); thorough '
-    'additionally N=4 over all relations, cyclic or not, with at most 4 edges + self-dependencies (file mentions), N=3 '
-    'acyclic with always_run before the commands, N=3 with edges that are both explicit and resource-induced (one '
-    'flavour per pipeline, no self-dependency) and N=4 over ALL acyclic dependency relations on 4 jobs (acyclicity '
-    'stated to the solver through existential order variables; file mentions). Counterexamples are solver models replayed concretely on the real code.'
+    'additionally N=4 over all CYCLIC relations with at most 4 edges + self-dependencies (explicit or resource edges, '
+    'file mentions), N=4 over ALL acyclic dependency relations on 4 jobs, once with explicit and once with '
+    'resource-induced edges (acyclicity stated to the solver through existential order variables), N=3 acyclic with '
+    'always_run before the commands, and N=3 with edges that are both explicit and resource-induced (one flavour per '
+    'pipeline, no self-dependency). Counterexamples are solver models replayed concretely on the real code.'
 )
 SRC_BATCH = 'hail/python/hailtop/batch/batch.py'
 SRC_BACKEND = 'hail/python/hailtop/batch/backend.py'
@@ -55,10 +56,11 @@ def _configs(tier):
         return [n3], 170
     return [
         n3,
-        dict(tag='N4le4', N=4, kinds=[0, 1, 2], aro=[0], max_total=4, fixed_flavour=0, nfix=2),
+        dict(tag='N4cyc', N=4, kinds=[0, 1, 2], aro=[0], max_total=4, cyclic_only=True, fixed_flavour=0, nfix=2),
+        dict(tag='N4dagE', N=4, kinds=[0, 1], aro=[0], acyclic_only=True, nfix=2),
+        dict(tag='N4dagR', N=4, kinds=[0, 2], aro=[0], acyclic_only=True, fixed_flavour=0, nfix=2),
         dict(tag='N3aro', N=3, kinds=[0, 1, 2], aro=[1], acyclic_only=True, nfix=2),
         dict(tag='N3both', N=3, kinds=[0, 1, 2, 3], aro=[0], global_flavour=True, max_self=0, nfix=2),
-        dict(tag='N4dag', N=4, kinds=[0, 1, 2], aro=[0], acyclic_only=True, fixed_flavour=0, nfix=3),
     ], 1300
 
 
@@ -149,6 +151,10 @@ def run(R):
             n = part_counts.get(part, 0)
             if part in ('no_other_exception', 'nothing_runs_when_building_fails') and part not in by_part:
                 continue      # only exists as a failure (another exception escaped)
+            if n == 0 and part not in by_part and (
+                    (c.get('acyclic_only') and part == 'cycle_rejected_before_anything_runs')
+                    or (c.get('cyclic_only') and part != 'cycle_rejected_before_anything_runs')):
+                continue      # not applicable to this configuration
             name = f'{tag}: {text}'
             detail = {'paths_checked': n, 'shards': len(rs)}
             if part in by_part:
@@ -172,9 +178,9 @@ def run(R):
         if totals[tag]['rejected_while_building']:
             R.log(f'[C17] NOTE {tag}: the DSL refused {totals[tag]["rejected_while_building"]} programs while they were '
                   f'being built (not a C17 violation): {totals[tag]["rejection_example"]}')
-        ran = totals[tag]['dag_paths']
-        R.ob(f'{tag}: non-vacuity - acyclic pipelines are built, accepted and executed', 'discharged' if ran > 0 else 'not_discharged',
-             0.0, {'acyclic_paths_executed': ran, 'rejected_while_building': totals[tag]['rejected_while_building']},
+        ran = totals[tag]['cyclic_paths'] if c.get('cyclic_only') else totals[tag]['dag_paths']
+        R.ob(f'{tag}: non-vacuity - pipelines of this configuration are built and reach run()', 'discharged' if ran > 0 else 'not_discharged',
+             0.0, {'paths_reaching_run': ran, 'rejected_while_building': totals[tag]['rejected_while_building']},
              nontrivial=ran > 0)
         exh = [r['exhaustive'] for r in rs]
         name = f'{tag}: explored path conditions cover the whole bounded input space'
